@@ -72,3 +72,66 @@ theorem recv_waited (ρ : Role) (p : Pat) (env : Env) (s : St) (hj : J bad s) (h
   exact (recvLoop_waited bad env.dev ρ p _ s hm hj.safe (hj.run hm)).1
 
 end NA.C09
+
+namespace NA.C09
+open NA.Sess NA.Apply NA.Spec.C09
+
+/-! ## equation lemmas for the control constructs (leave `recv` / `roundTrip` folded) -/
+section eqs
+variable (env : Env) (s : St)
+theorem exec_seq (a b : Sess) : exec (a ;; b) env s = exec b env (exec a env s) := by simp [exec]
+theorem exec_skip : exec .skip env s = s := by simp [exec]
+theorem exec_call (n : String) (l : List String) (body : Sess) (hm : s.mode = .run) :
+    exec (.call n l body) env s =
+      (if (exec body env s).mode = .ret then { exec body env s with mode := .run } else exec body env s) := by
+  simp [exec, hm]
+theorem exec_ite (c : Cond) (l : String) (t e : Sess) (hm : s.mode = .run) :
+    exec (.ite c l t e) env s = (if evalCond c env s then exec t env s else exec e env s) := by
+  simp [exec, hm]
+theorem exec_ret (v : RetV) (l : List String) (hm : s.mode = .run) :
+    exec (.ret v l) env s = { s with mode := .ret, errv := match v with | .none => s.errv | .nil => false | .err => true | .keep => s.errv } := by
+  cases v <;> simp [exec, hm]
+theorem exec_abort (l : List String) (hm : s.mode = .run) :
+    exec (.abort l) env s = { s with tr := s.tr ++ [.logErr], mode := .panic } := by simp [exec, hm]
+theorem exec_op (n : String) (l : List String) : exec (op n l) env s = s := by
+  by_cases hm : s.mode = .run
+  · simp [op, exec, hm]
+  · exact exec_nonrun _ _ _ hm
+end eqs
+
+variable (bad : Role → Reply → Bool)
+
+/-- outcome of a function that waits for the device and aborts when the wait fails -/
+inductive Awaited (ρ : Role) (p : Pat) (s s' : St) : Prop
+  | ok (h : Pd bad ρ s') (hp : p.matches s'.last = true) (he : s'.errv = false) (hc : s'.ctr = s.ctr)
+  | aborted (h : Jv bad s') (hm : s'.mode = .panic)
+
+theorem waitCall_spec (name : String) (cl lits : List String) (ρ : Role) (p : Pat) (env : Env) (s : St)
+    (hj : J bad s) (hm : s.mode = .run) :
+    Awaited bad ρ p s
+      (exec (.call name cl (expectLog ρ p ;; .ite .err "err != nil" (.abort lits) .skip ;; .ret .none ["_"])) env s) := by
+  obtain ⟨hw, hctr⟩ := recvLoop_waited bad env.dev ρ p (linesSent s.tr + 1 - repliesRead s.tr) s hm hj.safe (hj.run hm)
+  simp only [expectLog, expectLogBody, Bool.false_eq_true, if_false, exec, hm, if_true]
+  generalize recvLoop env.dev ρ p (linesSent s.tr + 1 - repliesRead s.tr) s = s1 at hw hctr
+  cases hw with
+  | got h he =>
+    have hm1 := h.mode
+    obtain ⟨tr0, hsplit, hs0, hf0⟩ := h.split
+    cases hmt : p.matches s1.last with
+    | true =>
+      have he' : s1.errv = false := by rw [he, hmt]; rfl
+      simp only [hm1, he', evalCond, if_true, Bool.false_eq_true, if_false]
+      exact .ok ⟨rfl, tr0, hsplit, hs0, hf0⟩ hmt rfl hctr
+    | false =>
+      have he' : s1.errv = true := by rw [he, hmt]; rfl
+      simp only [hm1, he', evalCond, if_true]
+      refine .aborted ⟨?_, by simp, by simp, by simp⟩ (by simp)
+      show NA.Spec.C09.safe bad (s1.tr ++ [Ev.logErr]) = true
+      rw [safe_append_quiet bad _ _ (by simp [isChangeOrSave])]; exact h.safe
+  | nothing hc he hm' =>
+    simp only [hm', he, evalCond, if_true]
+    refine .aborted ⟨?_, by simp, by simp, by simp⟩ (by simp)
+    show NA.Spec.C09.safe bad (s1.tr ++ [Ev.logErr]) = true
+    rw [safe_append_quiet bad _ _ (by simp [isChangeOrSave])]; exact hc.1
+
+end NA.C09
